@@ -21,17 +21,14 @@ Inductive case :=
 | CAuto (w : list Q) (inds : list ind) (k : nat) (ds : list draw) (obs : outcome)
 | CDCD (inds : list ind) (k : nat) (ds : list draw) (obs : outcome).
 
-Definition exn_eqb (a b : exn) : bool :=
-  match a, b with
-  | IndexError, IndexError | ZeroDivisionError, ZeroDivisionError | ValueError, ValueError
-  | AssertionError, AssertionError => true
-  | _, _ => false
-  end.
-
+(* Exceptions occur only on inputs outside the property's quantifier (empty population, tournament
+   size 0, parsimony size outside [1,2], DCD with k > n ...).  The runner compares "raised" against
+   "raised"; the kind of the exception is recorded in the case but not compared, since the property
+   says nothing about it and a refactoring may legitimately change it. *)
 Definition agree (r : res (list ind)) (obs : outcome) : bool :=
   match r, obs with
   | Ok out [], OOk u => list_eqb Nat.eqb (map uid out) u
-  | Raise e, ORaise e' => exn_eqb e e'
+  | Raise _, ORaise _ => true
   | _, _ => false
   end.
 
